@@ -113,7 +113,10 @@ where
     fn consume(&mut self, ctx: &mut Self::Ctx, packet: &packet::Packet<'_>) {
         if !self.is_continuous(packet) {
             self.stream_consumer.continuity_error(ctx);
-            self.state = PesState::IgnoreRest;
+            // a gap seen before the stream has started must not hide the pending start_stream()
+            if self.state != PesState::Begin {
+                self.state = PesState::IgnoreRest;
+            }
         }
         self.ccounter = Some(packet.continuity_counter());
         if packet.payload_unit_start_indicator() {
